@@ -4,4 +4,5 @@ pub mod lifecycle;
 pub mod maps;
 pub mod limits;
 pub mod memo;
+pub mod scoped;
 pub mod symdiff;
